@@ -11,6 +11,7 @@ import BiotiteModel.Proofs.C10Cached
 import BiotiteModel.Proofs.C10Eq
 import BiotiteModel.Proofs.C10Score
 import BiotiteModel.Proofs.C10Api
+import BiotiteModel.Proofs.C10Audit
 import BiotiteModel.Gen.C10
 /-!
 # C10 — property theorems (k-mer index tables and selectors)
@@ -536,6 +537,45 @@ theorem C10_permutation (p : Perm) (kmers : List Nat) (q : Nat) :
     have := lcg_range q
     simp only [Perm.offset, Perm.range]; omega⟩
 
+/-- **Min-code with a fractional compression factor** `num/den ≥ 1` (the documented type is a float; the
+integer case is `den = 1`, `mincodeSelect_eq_Q`): same statement with the exact threshold
+`offset + range · den / num`. -/
+theorem C10_mincode_fraction (a : KAlph) (num den : Nat) (hd : 0 < den) (hc : den ≤ num) (p : Perm)
+    (kmers : List Nat) (ord : List Int) (hp : p.apply kmers = .ok ord) :
+    ∃ l, mincodeSelectQ a num den p kmers = .ok l ∧
+      ∀ i q, (i, q) ∈ l ↔ kmers[i]? = some q ∧
+        ∃ v, p.fn q = .ok v ∧ (v - p.offset) * (num : Int) < p.range a.size * (den : Int) :=
+  mincodeSelectQ_spec a num den hd hc p kmers ord hp
+
+/-- the hypothesis `compression ≥ 1` is exactly where the constructor refuses. -/
+theorem C10_mincode_rejects (a : KAlph) (num den : Nat) (p : Perm) (kmers : List Nat) (h : num < den) :
+    mincodeSelectQ a num den p kmers = .error .valueError :=
+  mincodeSelectQ_rejects a num den p kmers h
+
+/-- reference ids: a constructor that would otherwise succeed is refused with `OverflowError` exactly
+when some id does not fit `uint32` (negative or ≥ 2³²); otherwise the ids are stored unchanged. -/
+theorem C10_refids_rejects (rs : List Int) (t : Table) :
+    (guardRefIds rs (.ok t) = .ok t ↔ ∀ r ∈ rs, 0 ≤ r ∧ r < 2 ^ 32) ∧
+    (guardRefIds rs (.ok t) = .error .overflowError ↔ ¬ ∀ r ∈ rs, 0 ≤ r ∧ r < 2 ^ 32) :=
+  guardRefIds_iff rs t
+
+/-- `ScoreThresholdRule`: the constructor accepts exactly int32 thresholds with a symmetric matrix, and
+`similar_kmers` answers exactly for a matrix alphabet extending the base alphabet (`n ≤ m`, the
+hypothesis of `C10_similar_kmers_rowmax`) and a valid k-mer code — with the branch-and-bound result. -/
+theorem C10_rule_rejects (a : KAlph) (mat : List Int) (thr : Int) (q : Nat) :
+    (ruleCtor mat thr = .ok () ↔
+      (-(2 : Int) ^ 31 ≤ thr ∧ thr < (2 : Int) ^ 31) ∧ matSymmetric mat = true) ∧
+    (∀ l, similarKmersChecked a mat thr q = .ok l →
+      ruleCtor mat thr = .ok () ∧ a.n ≤ matDim mat ∧ q < a.size ∧ l = bbSim a mat thr q) :=
+  ⟨ruleCtor_iff mat thr, fun l h => similarKmersChecked_ok a mat thr q l h⟩
+
+/-- where the unbounded model coincides with the int64 arithmetic of the code: if the k-mer alphabet
+has at most 2⁶³ symbols every k-mer code fits `int64`.  (Beyond that — DNA `k = 32` — the real
+`create_kmers` wraps silently: known finding `C10/create_kmers/code-exceeds-int64`.) -/
+theorem C10_kmer_codes_fit_int64 (a : KAlph) (seq : List Nat) (hwf : a.WF) (hlen : a.span ≤ seq.length)
+    (hn : ∀ c ∈ seq, c < a.n) (hsz : a.size ≤ 2 ^ 63) : ∀ q ∈ kmersSpec a seq, q < 2 ^ 63 :=
+  kmer_codes_fit a seq hwf hlen hn hsz
+
 /-- **Defect**: `fuse` accepts a symbol code equal to the alphabet length (`>` instead of `>=`). -/
 theorem C10_fuse_defect : fuseChecked ⟨4, 2, none⟩ [4, 0] = .ok 16 := by decide
 
@@ -611,5 +651,13 @@ example : minimizerSelectSeq ⟨2, 2, none⟩ 2 .ident .foreign true [0, 1, 1, 0
 example : tableHas (canonTable ⟨2, 2, none⟩ false 4 [⟨1, 0, 0⟩]) 1 = .ok true ∧
     tableHas (canonTable ⟨2, 2, none⟩ false 4 [⟨1, 0, 0⟩]) 2 = .ok false := by decide
 example : splitChecked ⟨4, 3, none⟩ 27 = .ok [1, 2, 3] ∧ encodeChecked ⟨4, 3, none⟩ [1, 2, 3] = .ok 27 := by decide
+
+example : mincodeSelectQ ⟨2, 2, none⟩ 5 2 .ident [0, 1, 2, 3] = .ok [(0, 0), (1, 1)] ∧
+    mincodeSelectQ ⟨2, 2, none⟩ 1 2 .ident [0, 1] = .error .valueError := by decide
+example : guardRefIds [0, -1] (.ok (canonTable ⟨2, 2, none⟩ false 4 [])) = .error .overflowError ∧
+    guardRefIds [4294967295] (.ok (canonTable ⟨2, 2, none⟩ false 4 [])) = .ok (canonTable ⟨2, 2, none⟩ false 4 []) := by
+  decide
+example : ruleCtor [1, 2, 3, 1] 1 = .error .valueError ∧ ruleCtor [1, 0, 0, 1] 2147483648 = .error .overflowError ∧
+    similarKmersChecked ⟨3, 2, none⟩ [1, 0, 0, 1] 1 0 = .error .valueError := by decide
 
 end BiotiteModel.C10
